@@ -188,12 +188,16 @@ def char_index(ex, sl, off, what):
             raise Panic(f"byte index {off} is out of bounds or not a char boundary ({what})")
         # symbolic chars before the offset: fall through to the solver
         off = LenV(sl.s, {}, off)
-    if isinstance(off, LenV) and off.s is sl.s and off.const == 0:
-        ks = sorted(off.terms)
-        if all(v == 1 for v in off.terms.values()) and ks == list(range(sl.lo, sl.lo + len(ks))) and sl.lo + len(ks) <= sl.hi:
-            return sl.lo + len(ks)
+    if isinstance(off, LenV) and off.s is sl.s:
+        # structural match against the exact prefix sums (mixed concrete / symbolic chars)
+        for j in range(sl.lo, sl.hi + 1):
+            pj = span_len(sl.s, sl.lo, j)
+            if isinstance(pj, LenV) and pj.terms == off.terms and pj.const == off.const:
+                return j
     # general case: ask the solver which boundary (if any) the offset denotes
-    oe = off.to_sv().e if isinstance(off, LenV) else (off.e if isinstance(off, SV) else z3.BitVecVal(off, 64))
+    def w64(e):
+        return z3.ZeroExt(64 - e.size(), e) if e.size() < 64 else e
+    oe = w64(off.to_sv().e) if isinstance(off, LenV) else (w64(off.e) if isinstance(off, SV) else z3.BitVecVal(off, 64))
     opts = []
     for j in range(sl.lo, sl.hi + 1):
         pe = span_len(sl.s, sl.lo, j)
@@ -215,15 +219,23 @@ def in_ranges(c, ranges):
 
 
 _pred_cache = {}
+DOMAIN_MAX = None      # when set, every symbolic char is constrained to be < DOMAIN_MAX and tables are clipped accordingly
+
+
+def clipped(table):
+    rs = unitables.tables()[table]
+    if DOMAIN_MAX is None:
+        return rs
+    return [(lo, min(hi, DOMAIN_MAX - 1)) for lo, hi in rs if lo < DOMAIN_MAX]
 
 
 def table_pred(c, table):
     if isinstance(c, int):
         return unitables.member(table, c)
-    key = (c.e.get_id(), table)
+    key = (c.e.get_id(), table, DOMAIN_MAX)
     r = _pred_cache.get(key)
     if r is None:
-        r = (c.e, in_ranges(c, unitables.tables()[table]))
+        r = (c.e, in_ranges(c, clipped(table)))
         _pred_cache[key] = r
     return r[1]
 
@@ -233,7 +245,9 @@ def fresh_char(name):
 
 
 def char_domain(c):
-    """Unicode scalar value"""
+    """Unicode scalar value (below DOMAIN_MAX when a check bounds the code-point range)"""
+    if DOMAIN_MAX is not None and DOMAIN_MAX <= 0xD800:
+        return z3.ULT(c.e, DOMAIN_MAX)
     return z3.And(z3.ULT(c.e, 0x110000), z3.Or(z3.ULT(c.e, 0xD800), z3.UGT(c.e, 0xDFFF)))
 
 
